@@ -52,6 +52,7 @@ def check(tier, seed):
         st = src_corr.stream(rep, exe, tier, seed, n, None, False, "g")
         n2 = 60 if tier == "quick" else 3000
         st2 = src_corr.stream(rep, exe, tier, seed + 1000003, n2, dict(faults=0.7, catches=0.9, prints=0.8), False, "f")
+        mods = src_corr.module_stream(rep, exe, seed, 40 if tier == "quick" else 1500)
         shapes = shapes_stage(rep, tier, seed)
         # self calls in every position class (tail / not tail): a call retagged by mistake loses the rest of the computation
         import tailpos
@@ -66,7 +67,7 @@ def check(tier, seed):
         evaluations=st["runs"] + st2["runs"] + corpus["in_core"],
         distinct_nontrivial=st["progs_with_output"] + st2["progs_with_output"] + corpus["with_output"],
         rule="type-directed seeded programs of the modelled core (a program is non-trivial when it prints); result value, printed bytes and unhandled-exception identity compared with eval; plus every sample program inside the core",
-        samples=st["samples"], shape_programs=shapes, tail_position_programs={k: v for k, v in tp.items() if k != "found"}, stream=st, fault_stream=st2, corpus=corpus, known_defect_probes_hit=known, seed_corpus=seeds,
+        samples=st["samples"], shape_programs=shapes, multi_unit_programs=mods, tail_position_programs={k: v for k, v in tp.items() if k != "found"}, stream=st, fault_stream=st2, corpus=corpus, known_defect_probes_hit=known, seed_corpus=seeds,
         share_programs_with_nonconstant_condition=round(st["progs_with_nonconst_cond"] / max(1, st["programs"]), 3),
         share_programs_with_ranges_or_slices=round(st["progs_with_ranges_or_slices"] / max(1, st["programs"]), 3),
         rejected_by_real_compiler=st["rejected"] + st2["rejected"])
